@@ -121,7 +121,18 @@ class ErrorHandling:
         suggestions = []
         if len(expected) == 1:
             # use only it
-            first_value = list(expected.keys())[0]
+            first_value, token_name = list(expected.items())[0]
+            if self.bad_token is not None and not first_value.startswith('['):
+                # the LALR table can list a token that is rejected right after a reduction: check it is accepted here
+                token = Token()
+                token.type = token_name
+                token.value = first_value
+                token.end = 0
+                token.index = 0
+                token.lineno = 0
+                self.parser.parse(iter(self.tokens[:error_index] + [token]))
+                if self.parser.error_info['bad_token'] is token:
+                    return []
             suggestions.append(first_value)
 
         elif 1 < len(expected) < 20:
